@@ -43,11 +43,18 @@
 //!     (E3) existing destination V1, a second writer writes V2, its temp file is taken away, `close` fails at the rename
 //!     (= the process stops right before rename(2)), forget: V1 must still be there; (E4) healthy replace; (E5) a watcher thread
 //!     samples the final name while it is republished 2000 times: never missing, never partial.
+//!  G  further writers: (G1) `SafeFileCreator::new_unnamed` + `set_dest_path` (close before a destination is set publishes
+//!     nothing; healthy close; failing flush under RLIMIT_FSIZE) and `replace_existing` (healthy: new content, permission bits of
+//!     the old file kept; failing flush: the old file survives); (G2) `shard_file_union` / `shard_file_difference` whose output
+//!     cannot be written (RLIMIT_FSIZE = size of the larger input): the output path is absent or a complete shard holding the
+//!     expected records, both inputs intact; then the same calls without the fault; (G3) `LocalClient::upload_shard` with
+//!     RLIMIT_FSIZE = 100 bytes: every `<64 hex>.mdb` of the `shards` directory complete, a fresh client on the directory
+//!     opens; then the upload without the fault and the file record is served by the same and by a fresh client.
 //! KNOWN on HEAD and deliberately NOT exercised: a SafeFileCreator that is DROPPED (or closed by its caller) after a write that
 //! failed part-way renames the partial temp file onto the final name (/verif/findings/c19_drop_commits_partial.rs); this is why
 //! C and D use items below the 8 KiB buffer and E2 forgets the creator instead of dropping it.
 //!
-//! Deterministic; VERIF_SEED (default 0) varies the generated hashes and payloads.  `VERIF_C19_ONLY=A,B,...` selects scenarios.
+//! Deterministic; VERIF_SEED (default 0) varies the generated hashes and payloads.  `VERIF_C19_ONLY=A,B,...,G` selects scenarios.
 //! Linux only (RLIMIT_FSIZE = 1, SIGXFSZ = 25); if lowering the limit has no effect the RLIMIT cases are skipped with a note.
 //! Exit 0 `no violation found`, 1 `WITNESS ...`, 2 harness trouble.
 use std::collections::BTreeSet;
@@ -1083,6 +1090,181 @@ fn scenario_e(seed: u64, fsize: bool) -> W {
     Ok(())
 }
 
+// ---------------------------------------------------------------- G: further writers
+async fn upload_shard_via<T: cas_client::ShardClientInterface>(c: &T, hash: &MerkleHash, data: &[u8]) -> Result<bool, cas_client::CasClientError> {
+    c.upload_shard("default", hash, true, data, &[0u8; 32]).await
+}
+async fn file_info_via<T: cas_client::ShardClientInterface>(c: &T, h: &MerkleHash) -> Result<bool, cas_client::CasClientError> {
+    Ok(c.get_file_reconstruction_info(h).await?.is_some())
+}
+fn scenario_g(rt: &tokio::runtime::Runtime, seed: u64, fsize: bool) -> W {
+    use std::os::unix::fs::PermissionsExt;
+    let v1 = bytes_of(seed ^ 0x61, 3000);
+    let v2 = bytes_of(seed ^ 0x62, 3500);
+    // G1: new_unnamed / replace_existing
+    {
+        let d = tmp();
+        let dest = d.path().join("sub").join("named-later");
+        io_ok("mkdir", std::fs::create_dir(d.path().join("sub")));
+        let ctx = "G1: SafeFileCreator::new_unnamed(dir), write_all, close() before a destination is set".to_string();
+        let mut w = guarded(&ctx, || SafeFileCreator::new_unnamed(d.path()))?.map_err(|e| format!("{ctx}: new_unnamed failed: {e}"))?;
+        guarded(&ctx, || w.write_all(&v1))?.map_err(|e| format!("{ctx}: write failed: {e}"))?;
+        let res = guarded(&ctx, || w.close())?;
+        let visible: Vec<String> = io_ok("read_dir", std::fs::read_dir(d.path())).filter_map(|e| e.ok()).map(|e| e.file_name().to_string_lossy().to_string()).filter(|n| !n.starts_with('.') && n != "sub").collect();
+        if res.is_ok() || !visible.is_empty() {
+            return Err(format!("{ctx} returned {res:?}; entries under non-temporary names: {visible:?}"));
+        }
+        let ctx = format!("{ctx}; then set_dest_path(dest) and close()");
+        w.set_dest_path(&dest);
+        guarded(&ctx, || w.close())?.map_err(|e| format!("{ctx}: failed: {e}"))?;
+        drop(w);
+        if std::fs::read(&dest).ok().as_ref() != Some(&v1) || !temp_leftovers(d.path()).is_empty() {
+            return Err(format!("{ctx}: dest does not hold the bytes written or a temporary file is left: {} / {}", list(d.path()), list(&d.path().join("sub"))));
+        }
+        if fsize {
+            let dest2 = d.path().join("sub").join("never");
+            let ctx = "G1: SafeFileCreator::new_unnamed, set_dest_path, write_all of 3500 bytes, close() while files cannot grow beyond 8 bytes (RLIMIT_FSIZE)".to_string();
+            let mut w = guarded(&ctx, || SafeFileCreator::new_unnamed(d.path()))?.map_err(|e| format!("{ctx}: {e}"))?;
+            w.set_dest_path(&dest2);
+            let res = with_fsize_limit(8, || w.write_all(&v2).and_then(|_| w.close())).map_err(|p| format!("{ctx}: the code under test panicked: {p}"))?;
+            std::mem::forget(w);
+            let now = std::fs::read(&dest2).ok();
+            if !(now.is_none() || now.as_ref() == Some(&v2)) || (res.is_ok() && now.as_ref() != Some(&v2)) {
+                return Err(format!("{ctx} returned {res:?}; the final name holds {:?} bytes", now.map(|b| b.len())));
+            }
+        }
+        for faulted in [false, true] {
+            if faulted && !fsize {
+                continue;
+            }
+            let dest = d.path().join(format!("replace-{faulted}"));
+            io_ok("write", std::fs::write(&dest, &v1));
+            io_ok("chmod", std::fs::set_permissions(&dest, std::fs::Permissions::from_mode(0o640)));
+            let ctx = format!("G1: dest holds V1 with mode 0640; SafeFileCreator::replace_existing(dest), write_all(V2), close(){}", if faulted { " while files cannot grow beyond 8 bytes (RLIMIT_FSIZE)" } else { "" });
+            let mut w = guarded(&ctx, || SafeFileCreator::replace_existing(&dest))?.map_err(|e| format!("{ctx}: replace_existing failed: {e}"))?;
+            let res = if faulted {
+                with_fsize_limit(8, || w.write_all(&v2).and_then(|_| w.close())).map_err(|p| format!("{ctx}: the code under test panicked: {p}"))?
+            } else {
+                guarded(&ctx, || w.write_all(&v2).and_then(|_| w.close()))?
+            };
+            std::mem::forget(w);
+            let now = std::fs::read(&dest).ok();
+            let mode = std::fs::metadata(&dest).map(|m| m.permissions().mode() & 0o777).unwrap_or(0);
+            let fine = match &res {
+                Ok(()) => now.as_ref() == Some(&v2),
+                Err(_) => now.as_ref() == Some(&v1) || now.as_ref() == Some(&v2),
+            };
+            if !fine || (!faulted && res.is_err()) {
+                return Err(format!("{ctx} returned {res:?}; dest now holds {:?} bytes (V1 = 3000, V2 = 3500)", now.map(|b| b.len())));
+            }
+            if res.is_ok() && mode != 0o640 {
+                eprintln!("note: {ctx}: mode afterwards is {mode:o}");
+            }
+        }
+    }
+    // G2: file-level set operations whose output cannot be written
+    {
+        let d = tmp();
+        let dir = d.path();
+        let (s1, m1) = make_shard(seed, 40, 4, 6, 3);
+        let (s2, m2) = make_shard(seed, 41, 3, 5, 4);
+        let (p1, p2) = (dir.join("in1.mdb"), dir.join("in2.mdb"));
+        let (b1, b2) = (shard_bytes(&s1), shard_bytes(&s2));
+        io_ok("write", std::fs::write(&p1, &b1));
+        io_ok("write", std::fs::write(&p2, &b2));
+        let limit = b1.len().max(b2.len()) as u64;
+        let parse = |p: &Path, ctx: &str| -> Result<Option<(BTreeSet<MerkleHash>, BTreeSet<MerkleHash>)>, String> {
+            let Ok(bytes) = std::fs::read(p) else { return Ok(None) };
+            let mut cur = Cursor::new(&bytes);
+            let r = guarded(ctx, || -> Result<_, String> {
+                let info = MDBShardInfo::load_from_reader(&mut cur).map_err(|e| format!("{e:?}"))?;
+                if info.num_bytes() != bytes.len() as u64 {
+                    return Err(format!("footer describes {} bytes", info.num_bytes()));
+                }
+                let f = info.read_all_file_info_sections(&mut cur).map_err(|e| format!("{e:?}"))?;
+                let x = info.read_all_cas_blocks_full(&mut cur).map_err(|e| format!("{e:?}"))?;
+                Ok((f.iter().map(|f| f.metadata.file_hash).collect(), x.iter().map(|x| x.metadata.cas_hash).collect()))
+            })?;
+            match r {
+                Ok(v) => Ok(Some(v)),
+                Err(e) => Err(format!("{ctx}: the output file {:?} ({} bytes) exists but is not a complete shard: {e}; directory: {}", p.file_name().unwrap_or_default(), bytes.len(), list(dir))),
+            }
+        };
+        let union_files: BTreeSet<MerkleHash> = m1.files.iter().chain(m2.files.iter()).cloned().collect();
+        let union_xorbs: BTreeSet<MerkleHash> = m1.xorbs.iter().chain(m2.xorbs.iter()).map(|x| x.0).collect();
+        let diff_files: BTreeSet<MerkleHash> = m2.files.iter().cloned().collect(); // the two shards are disjoint: second minus first
+        for faulted in [true, false] {
+            if faulted && !fsize {
+                continue;
+            }
+            for op in ["shard_file_union", "shard_file_difference"] {
+                let out = dir.join(format!("{op}-{faulted}.out"));
+                let ctx = format!("G2: {op}(in1 {} bytes, in2 {} bytes, out){}", b1.len(), b2.len(), if faulted { format!(" while files cannot grow beyond {limit} bytes (RLIMIT_FSIZE)") } else { String::new() });
+                let call = || if op == "shard_file_union" { mdb_shard::set_operations::shard_file_union(&p1, &p2, &out).map(|_| ()) } else { mdb_shard::set_operations::shard_file_difference(&p1, &p2, &out).map(|_| ()) };
+                let res = if faulted { with_fsize_limit(limit, call).map_err(|p| format!("{ctx}: the code under test panicked: {p}"))? } else { guarded(&ctx, call)? };
+                eprintln!("{ctx}: {res:?}");
+                let ctx = format!("{ctx}, which returned {}", if res.is_ok() { "Ok" } else { "an error" });
+                match parse(&out, &ctx)? {
+                    None if res.is_ok() => return Err(format!("{ctx}: the output file does not exist")),
+                    None => {},
+                    Some((f, x)) => {
+                        let want_f = if op == "shard_file_union" { &union_files } else { &diff_files };
+                        if &f != want_f || (op == "shard_file_union" && x != union_xorbs) {
+                            return Err(format!("{ctx}: the output file is a complete shard but holds {} file / {} xorb records instead of the expected {} / {}", f.len(), x.len(), want_f.len(), union_xorbs.len()));
+                        }
+                    },
+                }
+                if !faulted && res.is_err() {
+                    return Err(format!("{ctx} without any fault: {res:?}"));
+                }
+                if std::fs::read(&p1).ok().as_ref() != Some(&b1) || std::fs::read(&p2).ok().as_ref() != Some(&b2) {
+                    return Err(format!("{ctx}: an input file was modified or removed"));
+                }
+            }
+        }
+    }
+    // G3: LocalClient::upload_shard
+    if fsize {
+        let d = tmp();
+        let base = d.path().join("cas");
+        let ctx0 = "G3: LocalClient on a fresh directory".to_string();
+        let client = guarded(&ctx0, || rt.block_on(async { LocalClient::new(&base, None) }))?.map_err(|e| format!("{ctx0}: LocalClient::new failed: {e:?}"))?;
+        let (s0, m0) = make_shard(seed, 50, 3, 4, 3);
+        let (s1, m1) = make_shard(seed, 51, 5, 8, 4);
+        let (b0, b1) = (shard_bytes(&s0), shard_bytes(&s1));
+        let (h0, h1) = (compute_data_hash(&b0), compute_data_hash(&b1));
+        guarded(&ctx0, || rt.block_on(upload_shard_via(&client, &h0, &b0)))?.map_err(|e| format!("{ctx0}: upload_shard of a valid shard failed: {e:?}"))?;
+        let ctx = format!("{ctx0} holding shard S50; upload_shard(S51, {} bytes) while files cannot grow beyond 100 bytes (RLIMIT_FSIZE)", b1.len());
+        let res = with_fsize_limit(100, || rt.block_on(upload_shard_via(&client, &h1, &b1))).map_err(|p| format!("{ctx}: the code under test panicked: {p}"))?;
+        eprintln!("G3: upload_shard under the limit: {res:?}");
+        let ctx = format!("{ctx}, which returned {}", if res.is_ok() { "Ok" } else { "an error" });
+        let shard_dir = base.join("shards");
+        let mut expect = vec![&m0];
+        if res.is_ok() {
+            expect.push(&m1);
+        }
+        check_shard_dir(rt, &shard_dir, &expect, Some(&[&b0, &b1]), &ctx)?;
+        for (who, c) in [("the same client", None), ("a fresh client on the directory", Some(guarded(&ctx, || rt.block_on(async { LocalClient::new(&base, None) }))?.map_err(|e| format!("{ctx}: a fresh LocalClient on the directory fails: {e:?}"))?))] {
+            let c = c.as_ref().unwrap_or(&client);
+            for f in &m0.files {
+                if !matches!(guarded(&ctx, || rt.block_on(file_info_via(c, f)))?, Ok(true)) {
+                    return Err(format!("{ctx}: file record {} of S50 was retrievable before and is not served any more by {who}", f.hex()));
+                }
+            }
+        }
+        let ctx2 = format!("{ctx}; then upload_shard(S51) again without the fault");
+        guarded(&ctx2, || rt.block_on(upload_shard_via(&client, &h1, &b1)))?.map_err(|e| format!("{ctx2}: failed: {e:?}"))?;
+        check_shard_dir(rt, &shard_dir, &[&m0, &m1], Some(&[&b0, &b1]), &ctx2)?;
+        let fresh = guarded(&ctx2, || rt.block_on(async { LocalClient::new(&base, None) }))?.map_err(|e| format!("{ctx2}: a fresh LocalClient fails: {e:?}"))?;
+        for f in m0.files.iter().chain(m1.files.iter()) {
+            if !matches!(guarded(&ctx2, || rt.block_on(file_info_via(&fresh, f)))?, Ok(true)) || !matches!(guarded(&ctx2, || rt.block_on(file_info_via(&client, f)))?, Ok(true)) {
+                return Err(format!("{ctx2}: file record {} is not served by the client / a fresh client", f.hex()));
+            }
+        }
+    }
+    Ok(())
+}
+
 fn run(seed: u64) -> W {
     let only = std::env::var("VERIF_C19_ONLY").unwrap_or_default();
     let on = |name: &str| only.is_empty() || only.split(',').any(|s| s.trim() == name);
@@ -1115,6 +1297,10 @@ fn run(seed: u64) -> W {
     if on("E") {
         scenario_e(seed, fsize)?;
         eprintln!("E done at {:?}", t.elapsed());
+    }
+    if on("G") {
+        scenario_g(&rt, seed, fsize)?;
+        eprintln!("G done at {:?}", t.elapsed());
     }
     Ok(())
 }
